@@ -22,6 +22,7 @@ open Lean
 def dispatch (op : String) (j : Json) : Except String Json :=
   match op with
   | "munkres" => Drv.munkres j
+  | "munkres_heap" => Drv.munkresHeap j
   | "sched" => Drv.sched j
   | "parse" => Drv.parse j
   | "call_hist" => Drv.callHist j
